@@ -26,6 +26,7 @@ import (
 	"github.com/pkg/errors"
 	"github.com/prometheus/prometheus/config"
 	"github.com/prometheus/prometheus/model/labels"
+	"github.com/prometheus/prometheus/model/relabel"
 )
 
 const (
@@ -112,7 +113,11 @@ func (c *ConfigManager) ReloadFromRaw(data []byte) (err error) {
 	// config hash don't include external labels
 	eLb := info.Config.GlobalConfig.ExternalLabels
 	info.Config.GlobalConfig.ExternalLabels = []labels.Label{}
-	hash, err := hashstructure.Hash(info.Config, hashstructure.FormatV2, nil)
+	// relabel.Regexp has unexported fields only, hashstructure does not see the expressions
+	hash, err := hashstructure.Hash(struct {
+		Config *config.Config
+		Regex  []string
+	}{info.Config, relabelRegexps(info.Config)}, hashstructure.FormatV2, nil)
 	if err != nil {
 		return errors.Wrapf(err, "get config hash")
 	}
@@ -128,6 +133,31 @@ func (c *ConfigManager) ReloadFromRaw(data []byte) (err error) {
 	}
 
 	return nil
+}
+
+// relabelRegexps return the regular expressions of all relabel rules, in config order
+func relabelRegexps(cfg *config.Config) []string {
+	ret := make([]string, 0)
+	add := func(rs []*relabel.Config) {
+		for _, r := range rs {
+			ret = append(ret, r.Regex.String())
+		}
+	}
+
+	for _, sc := range cfg.ScrapeConfigs {
+		add(sc.RelabelConfigs)
+		add(sc.MetricRelabelConfigs)
+	}
+
+	add(cfg.AlertingConfig.AlertRelabelConfigs)
+	for _, am := range cfg.AlertingConfig.AlertmanagerConfigs {
+		add(am.RelabelConfigs)
+	}
+
+	for _, rw := range cfg.RemoteWriteConfigs {
+		add(rw.WriteRelabelConfigs)
+	}
+	return ret
 }
 
 // UpdateExtraConfig set new extra config
